@@ -3,6 +3,7 @@
 mod act;
 mod c13;
 mod radix;
+mod router;
 mod util;
 
 fn main() {
@@ -18,6 +19,7 @@ fn main() {
         "radix" => util::run_cases(inp, outp, radix::run),
         "radix_prefix" => util::run_cases(inp, outp, radix::run_prefix),
         "radix_rx" => util::run_cases(inp, outp, radix::run_rx),
+        "router" => util::run_cases(inp, outp, router::run),
         "act" => util::run_cases(inp, outp, act::run),
         other => {
             eprintln!("harness: unknown driver {}", other);
